@@ -179,9 +179,8 @@ inline constexpr void Conversion<Unit::Temperature, Unit::Temperature::Fahrenhei
 }
 
 template <typename NumericType>
-inline const std::
-    map<Unit::Temperature, std::function<void(NumericType* values, const std::size_t size)>>
-        MapOfConversionsFromStandard<Unit::Temperature, NumericType>{
+inline constexpr auto MapOfConversionsFromStandard<Unit::Temperature, NumericType>{
+  MakeConversionTable<Unit::Temperature, NumericType>({
           {Unit::Temperature::Kelvin,
            Conversions<Unit::Temperature, Unit::Temperature::Kelvin>::FromStandard<NumericType> },
           {Unit::Temperature::Celsius,
@@ -191,12 +190,12 @@ inline const std::
           {Unit::Temperature::Fahrenheit,
            Conversions<Unit::Temperature, Unit::Temperature::Fahrenheit>::
                FromStandard<NumericType>               },
+})
 };
 
 template <typename NumericType>
-inline const std::
-    map<Unit::Temperature, std::function<void(NumericType* const values, const std::size_t size)>>
-        MapOfConversionsToStandard<Unit::Temperature, NumericType>{
+inline constexpr auto MapOfConversionsToStandard<Unit::Temperature, NumericType>{
+  MakeConversionTable<Unit::Temperature, NumericType>({
           {Unit::Temperature::Kelvin,
            Conversions<Unit::Temperature, Unit::Temperature::Kelvin>::ToStandard<NumericType>    },
           {Unit::Temperature::Celsius,
@@ -205,6 +204,7 @@ inline const std::
            Conversions<Unit::Temperature, Unit::Temperature::Rankine>::ToStandard<NumericType>   },
           {Unit::Temperature::Fahrenheit,
            Conversions<Unit::Temperature, Unit::Temperature::Fahrenheit>::ToStandard<NumericType>},
+})
 };
 
 }  // namespace Internal
